@@ -143,6 +143,11 @@ pub uninterp spec fn d_abs(d: Duration) -> Duration;
 #[verifier::external_body] pub fn s_to_utc<D>(t: D) -> (r: DateTime<Utc>) ensures r == f_to_utc(t) { unimplemented!() }
 #[verifier::external_body] pub fn s_num_hours(d: Duration) -> (r: i64) ensures r == d_hours(d) { unimplemented!() }
 #[verifier::external_body] pub fn s_num_minutes(d: Duration) -> (r: i64) ensures r == d_minutes(d) { unimplemented!() }
+#[verifier::external_body] pub fn s_num_nanoseconds(d: Duration) -> (r: Option<i64>) { unimplemented!() }   // chrono: None beyond ~292 years
+#[verifier::external_body] pub fn f_div(a: f64, b: f64) -> f64 { unimplemented!() }
+#[verifier::external_body] pub fn f_add(a: f64, b: f64) -> f64 { unimplemented!() }
+#[verifier::external_body] pub fn i64_f(a: i64) -> f64 { unimplemented!() }
+#[verifier::external_body] pub fn i32_f(a: i32) -> f64 { unimplemented!() }
 #[verifier::external_body] pub fn s_num_seconds(d: Duration) -> (r: i64) ensures r == d_seconds(d) { unimplemented!() }
 #[verifier::external_body] pub fn s_num_milliseconds(d: Duration) -> (r: i64) ensures r == d_millis(d) { unimplemented!() }
 #[verifier::external_body] pub fn s_num_days(d: Duration) -> (r: i64) ensures r == d_days(d) { unimplemented!() }
@@ -202,6 +207,9 @@ def build():
     U.raw('pub mod string_type { use super::*;', 'file module')
     U.extract('rscel/src/context/type_funcs/string_type.rs', 'mod methods', qual_prefix='string_type', fns={
         'string#3': A(ret='r', ensures=[('identity', 'r == arg')], method_table=TABLE, props=('C14', 'C01')),
+        'string#6': A(ret='r', method_table=dict(TABLE, num_nanoseconds='s_num_nanoseconds'), props=('C01', 'C14'),
+                      rewrites=[('nanos as f64 / 1_000_000_000.0', 'f_div(i64_f(nanos), 1_000_000_000.0)', 'R2: f64 arithmetic / int -> double casts -> trampolines (Verus gives f64 operators an unprovable precondition)'),
+                                ('arg.num_seconds() as f64 + arg.subsec_nanos() as f64 / 1_000_000_000.0', 'f_add(i64_f(arg.num_seconds()), f_div(i32_f(arg.subsec_nanos()), 1_000_000_000.0))', 'R2: f64 arithmetic -> trampolines')]),
         'string#4': A(ret='r', ensures=[('the_text_the_bytes_spell_or_an_error_for_invalid_utf8',
                                           '(match utf8_decode(arg@) { Some(t) => r is Ok && r->Ok_0@ == t, None => r is Err })')],
                       ret_type='CelResult<String>', method_table=TABLE, rewrites=[('String::from_utf8_lossy', 's_from_utf8_lossy', 'R2m: std associated function -> trampoline over an uninterpreted function'),
